@@ -782,10 +782,10 @@ pub fn set_field_narrowing(
     }
 }
 
-/// Narrow nil from bindings created after a checkpoint.
+/// Narrow nil from bindings created after a checkpoint (`scopes::variable_slots`).
 pub fn narrow_nil_from_new_bindings(
     scopes: &mut [Scope],
-    bindings_before: &std::collections::HashSet<String>,
+    bindings_before: &std::collections::HashMap<String, usize>,
     program: &mut Program,
 ) {
     if let Some(scope) = scopes.last_mut() {
@@ -793,19 +793,25 @@ pub fn narrow_nil_from_new_bindings(
             .bindings
             .iter()
             .filter_map(|(name, binding)| {
-                if bindings_before.contains(name) {
-                    return None;
-                }
-                if let Binding::Variable { ty, .. } = binding {
+                if let Binding::Variable { ty, index, .. } = binding {
+                    // The same name in the same slot is the variable that was there before.
+                    if bindings_before.get(name) == Some(index) {
+                        return None;
+                    }
                     let ty_ref = program.lookup_type(*ty)?;
                     if ty_ref.contains_nil(program) {
                         let without_nil = ty_ref.without_nil(program);
                         // A purely-nil binding can't be narrowed to non-nil — stripping nil would
                         // leave `never`, which is wrong (the binding really is nil here). Leave it.
-                        if matches!(&without_nil, Type::Union(variants) if variants.is_empty()) {
+                        let Type::Union(variants) = without_nil else {
+                            return None;
+                        };
+                        if variants.is_empty() {
                             return None;
                         }
-                        let new_id = program.register_type(without_nil);
+                        // (`T | []` narrows to `T` itself, not to a union of one variant, which
+                        // would not be recognised as, say, a function.)
+                        let new_id = union_type_ids(program, variants);
                         return Some((name.clone(), new_id));
                     }
                 }
